@@ -2,7 +2,7 @@
    vyper/ast/pre_parser.py (GenPreParse.v), with the hand model of the COMMENT block (Pragma.v) as hook. *)
 From Coq Require Import ZArith List Bool String Lia.
 From Verif Require Import Base.PyInt C20P.Tok C20P.GenTokConst C20P.GenPragmaConst C20P.PreParse C20P.Pragma
-  C20P.GenPreParse C20P.PreParseSound C20P.PreParseProofs C20P.PragmaProofs.
+  C20P.GenPreParse C20P.PreParseSound C20P.PreParseProofs C20P.PragmaProofs C20P.SpanProofs.
 Import ListNotations.
 Open Scope list_scope.
 Open Scope Z_scope.
@@ -33,7 +33,7 @@ Section Props.
   Theorem preparse_structure : forall ts st, preparse ts = POk st ->
     (forall k v, In (k, v) (fp_anns (m_fp _ st)) -> exists t, In t ts /\ is_tok T_NAME "for" t = true /\ k = Some (tstart t)) /\
     NoDup (map fst (fp_anns (m_fp _ st))) /\
-    (forall k v, In (k, v) (m_adj _ st) -> exists t, In t ts /\ tstart t = (fst k, snd k + v)) /\
+    (forall k v, In (k, v) (m_adj _ st) -> exists t, In t ts /\ (tstart t = (fst k, snd k + v) \/ tend t = (fst k, snd k + v))) /\
     (forall k s, In (k, s) (m_kw _ st) ->
        exists t nk a, In t ts /\ ttyp t = T_NAME /\ keyword_of t = Some (nk, s) /\ tstart t = (fst k, snd k + a)) /\
     Rew ts (m_res _ st) /\
@@ -88,3 +88,50 @@ Example for_without_in_rejected :
   gen_run settings (comment_hook (fun _ => true) (fun _ => true) OPT_TABLE EVM_VERSION_NAMES false) settings0 witness_for_for =
   PErr (User "SyntaxException" 1 6 "invalid for loop syntax: missing `in`").
 Proof. vm_compute. reflexivity. Qed.
+
+(* adjusted_span_is_original_span: what vyper/ast/parse.py relies on when it does
+   `node.col_offset += adjustments.get((lineno, col_offset), 0)` and the same for (end_lineno, end_col_offset), and then
+   slices source[start:end]: for every token stream with tokenizer-like positions (tokens follow each other, ends not
+   before starts, keyword NAME tokens are len(text) wide) and every token of it, BOTH the position where the token starts
+   and the position where it ends in the rewritten text are keys of the table, and adding the stored adjustment gives
+   exactly the original start / end of that token.  (Layout model of the rewritten text: SpanProofs.v header.) *)
+Theorem adjusted_span_is_original_span : forall spec_valid spec_contains is_interface ts st,
+  wf_positions ts ->
+  gen_run settings (comment_hook spec_valid spec_contains OPT_TABLE EVM_VERSION_NAMES is_interface) settings0 ts = POk st ->
+  forall t ns ne, In (t, ns, ne) (spans [] ts) ->
+    exists a b, dget pos_eqb (m_adj _ st) ns = Some a /\ (fst ns, snd ns + a) = tstart t /\
+                dget pos_eqb (m_adj _ st) ne = Some b /\ (fst ne, snd ne + b) = tend t.
+Proof.
+  intros sv sc ii ts st W E. rewrite gen_run_eq in E.
+  exact (adjusted_span_model settings _ (comment_hook_user_facing sv sc OPT_TABLE EVM_VERSION_NAMES ii) settings0 ts st W E).
+Qed.
+Print Assumptions adjusted_span_is_original_span.
+
+(* the machine before /repo 8376ae6 recorded adjustments at token STARTS only (replayed here by [old_adjs]); the
+   property was false for it: in `    extcall Foo(t).bar(12.345 + y)` the literal 12.345 ends (rewritten text) at column
+   27, the old table has no entry there, so parse.py kept 27 as the end column although the original end is 29 and
+   sliced "12.3" -- a silently wrong constant *)
+Fixpoint old_adjs (cols : list (Z * Z)) (adj : list (pos * Z)) (ts : list token) : list (pos * Z) :=
+  match ts with
+  | [] => adj
+  | t :: r => old_adjs (cols_next cols t)
+                       (dset pos_eqb adj (new_start cols t) (dget_default Z.eqb cols (fst (tstart t)) 0)) r
+  end.
+Definition witness_extcall : list token :=
+  [mk_token 67 "utf-8" (0, 0) (0, 0); mk_token 5 "    " (1, 0) (1, 4); mk_token 1 "extcall" (1, 4) (1, 11);
+   mk_token 1 "Foo" (1, 12) (1, 15); mk_token 55 "(" (1, 15) (1, 16); mk_token 1 "t" (1, 16) (1, 17);
+   mk_token 55 ")" (1, 17) (1, 18); mk_token 55 "." (1, 18) (1, 19); mk_token 1 "bar" (1, 19) (1, 22);
+   mk_token 55 "(" (1, 22) (1, 23); mk_token 2 "12.345" (1, 23) (1, 29); mk_token 55 "+" (1, 30) (1, 31);
+   mk_token 1 "y" (1, 32) (1, 33); mk_token 55 ")" (1, 33) (1, 34);
+   mk_token 4 (String (Ascii.ascii_of_nat 10) "") (1, 34) (1, 35); mk_token 6 "" (2, 0) (2, 0); mk_token 0 "" (2, 0) (2, 0)]%string.
+Example adjusted_span_refuted_before_8376ae6 :
+  let lit := mk_token 2 "12.345" (1, 23) (1, 29) in
+  In (lit, (1, 21), (1, 27)) (spans [] witness_extcall) /\
+  dget pos_eqb (old_adjs [] [] witness_extcall) (1, 27) = None /\          (* .get((1, 27), 0) = 0: end stays 27 <> 29 *)
+  (exists st, gen_run settings (comment_hook (fun _ => true) (fun _ => true) OPT_TABLE EVM_VERSION_NAMES false) settings0
+                      witness_extcall = POk st /\
+              dget pos_eqb (m_adj _ st) (1, 27) = Some 2 /\ dget pos_eqb (m_adj _ st) (1, 21) = Some 2).
+Proof.
+  cbv zeta. split; [vm_compute; auto 20 |]. split; [vm_compute; reflexivity |].
+  eexists. split; [vm_compute; reflexivity | split; vm_compute; reflexivity].
+Qed.
